@@ -178,7 +178,7 @@ func Send[T any](ch chan T, v T) {
 	}
 	c.sendq = append(c.sendq, w)
 	s.cur.wpanic = ""
-	s.park(fmt.Sprintf("chan send #%d", c.id))
+	s.park(fmt.Sprintf("chan send #%d (%T)", c.id, c.ref))
 	if s.cur.wpanic != "" {
 		p := s.cur.wpanic
 		s.cur.wpanic = ""
@@ -200,7 +200,7 @@ func Recv2[T any](ch chan T) (T, bool) {
 	}
 	w := &waiter{g: s.cur}
 	c.recvq = append(c.recvq, w)
-	s.park(fmt.Sprintf("chan receive #%d", c.id))
+	s.park(fmt.Sprintf("chan receive #%d (%T)", c.id, c.ref))
 	v, ok := s.cur.wv, s.cur.wok
 	s.cur.wv = nil
 	return cast[T](v), ok
